@@ -110,6 +110,65 @@ func VerifHarness_QueueConcurrent() {
 	zz.Reach("concurrent")
 }
 
+// The server-switch flow: the queue is enabled first (EnablePlayPacketQueue), the state becomes CONFIG
+// later (possibly announced twice: outbound, then both directions). Packets held at any point of that
+// sequence survive it and come out once, in order, when the client is back in play.
+func VerifHarness_QueueEnableThenConfig() {
+	wr := &zzWriter{}
+	c, _ := newZZMinecraftConn(767, state.Play, &zzReader{}, wr, &zzHandler{})
+	var want []int
+	hold := func(tag int) {
+		before := len(wr.log)
+		zz.Assert(c.BufferPacket(zzPlayOnlyPacket(tag)) == nil, "a play packet was refused")
+		zz.Assert(len(wr.log) == before, "a play-only packet was written while the holding queue is active")
+		want = append(want, tag)
+	}
+	c.EnablePlayPacketQueue()
+	hold(1)
+	steps := zz.Choose(3)
+	if steps >= 1 {
+		c.SetOutboundState(state.Config)
+		hold(2)
+	}
+	if steps >= 2 {
+		c.SetState(state.Config)
+		hold(3)
+	}
+	if zz.Bool() {
+		c.SetState(state.Play)
+	} else {
+		c.SetOutboundState(state.Play)
+	}
+	got := zzTags(wr)
+	zz.Assert(len(got) == len(want), "packets held while entering the configuration phase were lost or duplicated")
+	for i := range want {
+		zz.Assert(got[i] == want[i], "held packets were not delivered in the order written")
+	}
+	zz.Reach("enable-then-config")
+}
+
+// Held packets are released while another goroutine writes a new play packet: the new packet must
+// not overtake the held ones.
+func VerifHarness_QueueReleaseOrder() {
+	zz.MaxPreempt(3)
+	wr := &zzWriter{}
+	c, _ := newZZMinecraftConn(767, state.Play, &zzReader{}, wr, &zzHandler{})
+	c.SetOutboundState(state.Config)
+	_ = c.BufferPacket(zzPlayOnlyPacket(1))
+	_ = c.BufferPacket(zzPlayOnlyPacket(2))
+	zz.Go(func() { c.SetOutboundState(state.Play) })
+	zz.Go(func() { _ = c.BufferPacket(zzPlayOnlyPacket(3)) })
+	zz.WaitAll()
+	if c.playPacketQueue != nil {
+		// the writer won the race and its packet is held too; release it
+		c.SetOutboundState(state.Play)
+	}
+	got := zzTags(wr)
+	zz.Assert(len(got) == 3, "a play packet was lost or duplicated around the release")
+	zz.Assert(got[0] == 1 && got[1] == 2 && got[2] == 3, "a packet written during the release overtook packets written before it")
+	zz.Reach("release-order")
+}
+
 func VerifMutant_Queue() {
 	wr := &zzWriter{}
 	c, _ := newZZMinecraftConn(767, state.Play, &zzReader{}, wr, &zzHandler{})
